@@ -220,6 +220,10 @@ def run(R):
         cls = "bs>1" if bsz > 1 else "bs=1"
         # solver accuracy: exponential-cone (poisson) and bisection (excitation) solves are only accurate to ~1e-3
         tol = {"excitation": 2e-2, "poisson": 1e-2, "minvar": 1e-3}.get(model, 2e-4)   # minvar: a cone problem whose own tolerance l2_eps is 1e-3
+        if model == "gaussian":
+            # the QP solver's accuracy (1e-5, relative to the scale of the stacked problem) in capture units: with rows up to ~15 units in the
+            # same call a row pinned at a bound (a dark row: x = lb) moves by ~3e-4 between batch sizes (thorough seed 0: 3.2e-4)
+            tol = max(tol, 5e-5 * (1.0 + float(np.max(np.abs(B)))))
         if os.environ.get("VERIF_DEBUG"):
             print("DEBUG", c["k"], float(np.abs(Bp - Bp1).max()), outmask.tolist(), file=sys.stderr)
         if X.shape != X1.shape or Bp.shape != Bp1.shape:
